@@ -108,12 +108,16 @@ func VerifH_v6_alloc() {
 	if len(post) != len(pre) {
 		return
 	}
-	vnd.Assert(vnd.HeldLocks() == 0, "C16 v6 allocator lock released")
+	vnd.AssertEngine(vnd.HeldLocks() == 0, "C16 v6 allocator lock released")
+	if vnd.Symbolic() {
+		vnd.AssertEngine(vnd.Acquisitions(&a.l) <= 1, "C16 one allocator call is one critical section")
+	}
 	if err != nil {
 		vnd.Cover("full")
 		vnd.Assert(err == allocators.ErrNoAddrAvail, "C05 v6 failure reports no address available")
 		vnd.Assert(hallSet(pre, n), "C05 v6 fails only when every block is outstanding")
 		vnd.Assert(hsameExcept(post, pre, 0, false, true), "C05 v6 failure changes nothing")
+		vnd.Assert(hsameExcept(post, pre, 0, false, true), "C04 v6 a failed allocation leaves every outstanding block outstanding")
 		return
 	}
 	vnd.Cover("allocated")
@@ -147,6 +151,8 @@ func VerifH_v6_alloc() {
 			if !hbit(pre, hi) {
 				vnd.Cover("hint-free")
 				vnd.Assert(i == hi, "C07 v6 free hinted block is returned exactly")
+				blockBase := vnd.U128Add(base, vnd.U128Shl(vnd.U128FromU64(hi), uint(128-page)))
+				vnd.Assert(vnd.U128Eq(g, blockBase), "C07 v6 the prefix returned for a hint inside a free block is that block's base")
 			} else {
 				vnd.Cover("hint-taken")
 			}
@@ -176,7 +182,10 @@ func VerifH_v6_free() {
 	if len(post) != len(pre) {
 		return
 	}
-	vnd.Assert(vnd.HeldLocks() == 0, "C16 v6 allocator lock released")
+	vnd.AssertEngine(vnd.HeldLocks() == 0, "C16 v6 allocator lock released")
+	if vnd.Symbolic() {
+		vnd.AssertEngine(vnd.Acquisitions(&a.l) <= 1, "C16 one allocator call is one critical section")
+	}
 	inPool := vnd.U128Eq(vnd.U128And(p, vnd.U128Not(lowMask(128-L))), base)
 	if inPool {
 		i := vnd.U128Lshr(vnd.U128Sub(p, base), uint(128-page)).Lo
